@@ -7,11 +7,13 @@ ID = "C01"
 LEVEL = "exploration"
 RULE = (
     "seeded random Tasklang programs (trees/DAGs of tasks in 8 calling styles, nested tuple/list/dict "
-    "yields, batch items of several kinds, DebugBatchItems, const/error/lazy futures, None, re-yielded "
-    "futures, junk, sync re-entry, try/except/finally, contexts, early result()); each run under all four "
-    "calling conventions and several get_priority() policies on both builds and compared with a sequential "
-    "reference evaluation of the same program text, at the root and at every task's every yield. "
-    "distinct = structural hash of the program; non-trivial = at least 2 task instances and at least 1 batch flush."
+    "yields incl. empty ones, batch items of several kinds, DebugBatchItems, const/error/lazy futures, None, "
+    "re-yielded futures, junk, sync re-entry, try/except/finally, contexts and scoped-value reads, early "
+    "result()); each run under all four calling conventions and several get_priority() policies on both "
+    "builds and compared with a sequential reference evaluation of the same program text, at the root and "
+    "at every task's every yield. Two profiles alternate: A = shared tasks (DAGs), no reads; B = scoped-value "
+    "overrides with reads, no shared tasks. distinct = structural hash of the program; non-trivial = at "
+    "least 2 task instances and at least 1 batch flush."
 )
 ASSUMPTIONS = [
     "task bodies are side-effect free apart from contexts, so 'the sequential result' is well defined",
@@ -19,25 +21,38 @@ ASSUMPTIONS = [
 ]
 UNIT_TIMEOUT = {"quick": 600, "thorough": 3000}
 
-PROFILE = gen.profile(p_item_fault=0.05)
+COMMON = dict(
+    p_item_fault=0.03,
+    p_wrap=0.7,
+    w_stmt=dict(raise_=0.15),
+    w_leaf=dict(err=0.15, junk=0.05, lazy=0.4),
+    lazy_modes=["ok", "ok", "ok", "raise"],
+    p_try_raise=0.35,
+)
+PROFILE_A = gen.profile(p_shared=0.6, **COMMON)
+PROFILE_B = gen.profile(
+    p_shared=0.0,
+    ctxs=["ov", "ov", "attr", "actx"],
+    **dict(COMMON, w_stmt=dict(raise_=0.15, read=2.5, with_=2.2))
+)
 HOWS = ["call", "value", "yielded", "yielded_value"]
+MONITORS = ("refeq", "restore")
 
 
 def plan(tier, seed, build, scale):
-    n = int((1600 if tier == "quick" else 30000) * scale)
-    per = max(1, n // (8 if tier == "quick" else 16))
+    n = int((2400 if tier == "quick" else 40000) * scale)
+    per = max(1, n // (8 if tier == "quick" else 32))
     units = []
     a = 0
     while a < n:
-        units.append({"cases": [a, min(n, a + per)], "nsched": 4 if tier == "quick" else 10})
+        units.append({"cases": [a, min(n, a + per)], "nsched": 4 if tier == "quick" else 8})
         a += per
     return units
 
 
 def run_unit(unit, progress):
-    from .. import harness
-
-    res = {"evaluations": 0, "nontrivial": [], "counters": {}, "sets": {"flushseq": set(), "shapes": set()}, "violations": [], "faults": [], "samples": []}
+    res = tl.new_result()
+    res["sets"] = {"flushseq": set()}
     c = res["counters"]
 
     def inc(k, n=1):
@@ -47,13 +62,15 @@ def run_unit(unit, progress):
     for i in range(a, b):
         progress(i)
         cs = tl.case_seed(unit["seed"], ID, i)
-        prog = gen.generate(cs, PROFILE)
+        prof = PROFILE_A if i % 2 == 0 else PROFILE_B
+        prog = gen.generate(cs, prof)
         rnd = random.Random(cs ^ 0x5A5A)
         try:
-            exp, rrt = ref.evaluate(prog)
-        except lang.HarnessFault as e:
+            exp_rrt = ref.evaluate(prog)
+        except lang.HarnessFault:
             inc("ref_budget_skips")
             continue
+        exp, rrt = exp_rrt
         feats = lang.prog_features(prog)
         pols = tl.policies(prog, rnd, unit.get("nsched", 4), exhaustive_perms=unit["tier"] == "thorough")
         seqs = set()
@@ -62,45 +79,42 @@ def run_unit(unit, progress):
         for pi, pol in enumerate(pols):
             hows = HOWS if pi == 0 else [HOWS[(i + pi) % 4]]
             for how in hows:
-                rt = harness.HarnessRT(prog, prio=pol, seed=cs)
-                out = rt.run(how)
+                rt, out, _e, _r = tl.execute(prog, how, pol, cs, MONITORS, rrt_exp=exp_rrt)
                 res["evaluations"] += 1
-                fs = harness.flush_sequence(rt.log)
+                tl.harvest(rt, c)
+                fs = tuple(ev[2] for ev in rt.log if ev[0] == "flush_body")
                 seqs.add(fs)
                 if fs:
                     flushed = True
-                inc("resumes_compared", sum(len(f.received) for f in rt.frames.values()))
-                problems = []
-                if out[:2] != exp[:2]:
-                    problems.append(("root outcome", tl.short(exp), tl.short(out[:2])))
-                for d in tl.compare_frames(rt, rrt):
-                    problems.append((repr(d[0]) + " " + d[1], tl.short(d[2]), tl.short(d[3])))
-                if problems and not bad:
+                inc("yield_results_compared", sum(len(f.received) for f in rt.frames.values()))
+                if rt.violations and not bad:
                     bad = True
-                    res["violations"].append(
-                        {
-                            "oracle": "reference-equality",
-                            "mechanism": "value-mismatch",
-                            "detail": {"how": how, "prio": pol, "problems": problems[:4], "program": prog},
-                            "case": {"cases": [i, i + 1]},
-                        }
-                    )
+                    for v in rt.violations[:3]:
+                        res["violations"].append(
+                            {
+                                "oracle": v["oracle"],
+                                "mechanism": v["oracle"],
+                                "detail": {"how": how, "prio": pol, "violation": v["detail"], "program": prog},
+                                "case": {"cases": [i, i + 1]},
+                            }
+                        )
         if len(seqs) >= 2:
             inc("programs_with_2plus_flush_orders")
         for s in seqs:
             res["sets"]["flushseq"].add(tl.digest(s))
-        if feats["st_sync"]:
-            inc("programs_with_sync")
-        if feats["leaf_shared"]:
-            inc("programs_with_shared")
+        for k, name in (("st_sync", "programs_with_sync"), ("leaf_shared", "programs_with_shared"), ("st_read", "programs_with_scoped_reads"), ("leaf_dbg", "programs_with_debug_batch_items")):
+            if feats[k]:
+                inc(name)
+        inc("reads_compared", sum(1 for f in rt.frames.values() for r in f.received if r[0] == "read"))
         if exp[0] == "exc":
             inc("programs_ending_in_exception")
+        else:
+            inc("programs_ending_in_value")
         inc("programs")
-        inc("max_task_instances", 0)
-        c["max_task_instances"] = max(c["max_task_instances"], len(rrt.frames))
+        c["max_task_instances"] = max(c.get("max_task_instances", 0), len(rrt.frames))
         if len(rrt.frames) >= 2 and flushed:
             res["nontrivial"].append(lang.struct_hash(prog))
-        if len(res["samples"]) < 2 and len(rrt.frames) >= 3 and flushed:
+        if len(res["samples"]) < 2 and 3 <= len(rrt.frames) <= 8 and flushed:
             res["samples"].append({"program": prog, "expected": tl.short(exp, 400), "flush_orders_seen": len(seqs)})
     res["sets"] = {k: sorted(v) for k, v in res["sets"].items()}
     return res
@@ -108,7 +122,7 @@ def run_unit(unit, progress):
 
 def reach(c, tier):
     out = []
-    for k in ("programs_with_2plus_flush_orders", "programs_with_sync", "programs_with_shared", "resumes_compared"):
+    for k in ("programs_with_2plus_flush_orders", "programs_with_sync", "programs_with_shared", "programs_with_scoped_reads", "yield_results_compared", "reads_compared", "programs_ending_in_value"):
         if not c.get(k):
             out.append("%s is zero" % k)
     return out
